@@ -3,6 +3,7 @@
    (spec -> code) -- a factored space: every pair of name patterns; slot x sub-slot patterns;
    operators x versions x body forms x slot x repository.                                   *)
 EXTENDS QueryGlob
+CONSTANT Size      \* 1: quick (about 900 queries x 45 packages), 2: thorough (3155 x 68)
 
 a == <<"a">>
 ab == <<"a", "b">>
@@ -26,7 +27,7 @@ v15    == V(<<D("1"), D("5")>>, "", <<>>, <<>>)
 
 UCats == {a, ab, b_a}
 UPkgs == {ba, a_b, a}
-UVers == {v1, v12, v12r1, v12r2, v110, v12al, v12rc2, v12p1, v2a, v09}
+UVers == IF Size = 1 THEN {v1, v12, v12r1, v110, v12al, v2a} ELSE {v1, v12, v12r1, v12r2, v110, v12al, v12rc2, v12p1, v2a, v09}
 USlots == {<<<<"0">>, <<"0">>>>, <<<<"1">>, <<"1", ".", "2">>>>, <<<<"1", "2">>, <<"0">>>>}
 URepos == {<<"r">>, <<"s">>}
 Pk(c, n, v, s, r) == [cat |-> c, pkg |-> n, ver |-> RenderVer(v), slot |-> s[1], sub |-> s[2], repo |-> r]
@@ -36,20 +37,21 @@ Universe == {Pk(c, n, v1, <<<<"0">>, <<"0">>>>, <<"r">>) : c \in UCats, n \in UP
 AsPkg(x) == [cat |-> x.cat, pkg |-> x.pkg, ver |-> ParseVer(x.ver), slot |-> x.slot, sub |-> x.sub, repo |-> x.repo]
 
 NameAlpha == {"a", "b", "*"}
-NamePats == {t \in UNION {[1..k -> NameAlpha] : k \in 1..3} : IsNamePat(t)}
+NamePats == {t \in UNION {[1..k -> NameAlpha] : k \in 1..(Size + 1)} : IsNamePat(t)}
             \cup {a_b, b_a, <<"a", "-", "*">>, <<"*", "-", "*">>, <<"*", "-", "a">>, <<"*", "a", "-", "b">>}
 SlotPats == {<<"0">>, <<"1">>, <<"1", "*">>, <<"*", "2">>, <<"*">>, <<"1", "*", "2">>}
 SubPats == {<<"0">>, <<"1", ".", "2">>, <<"1", ".", "*">>, <<"*">>, <<"*", ".", "*">>}
-QVers == {v12, v12r1, v110, v12al, v2a, v12p1, v15}
+QVers == IF Size = 1 THEN {v12, v12r1, v110, v12al} ELSE {v12, v12r1, v110, v12al, v2a, v12p1, v15}
 
-QNames == {MkQ("", TRUE, c, p, NoVer, FALSE, Any, FALSE, Any, <<>>) : c \in NamePats, p \in NamePats}
-          \cup {MkQ("", FALSE, Any, p, NoVer, FALSE, Any, FALSE, Any, <<>>) : p \in NamePats}
-Bodies == {<<FALSE, Any, ba>>, <<TRUE, <<"a", "*">>, ba>>, <<TRUE, ab, ba>>, <<TRUE, Any, Any>>, <<TRUE, Any, <<"b", "*">>>>}
-QSlots == {MkQ("", b[1], b[2], b[3], NoVer, TRUE, s, FALSE, Any, r) : b \in Bodies, s \in SlotPats, r \in {<<>>, <<"s">>}}
+QNames == {MkQ("", TRUE, c, p, NoVer, FALSE, AnyPat, FALSE, AnyPat, <<>>) : c \in NamePats, p \in NamePats}
+          \cup {MkQ("", FALSE, AnyPat, p, NoVer, FALSE, AnyPat, FALSE, AnyPat, <<>>) : p \in NamePats}
+Bodies == {<<FALSE, AnyPat, ba>>, <<TRUE, <<"a", "*">>, ba>>, <<TRUE, ab, ba>>}
+          \cup (IF Size = 1 THEN {} ELSE {<<TRUE, AnyPat, AnyPat>>, <<TRUE, AnyPat, <<"b", "*">>>>})
+QSlots == {MkQ("", b[1], b[2], b[3], NoVer, TRUE, s, FALSE, AnyPat, r) : b \in Bodies, s \in SlotPats, r \in {<<>>, <<"s">>}}
           \cup {MkQ("", b[1], b[2], b[3], NoVer, TRUE, s, TRUE, u, r) : b \in Bodies, s \in SlotPats, u \in SubPats, r \in {<<>>, <<"s">>}}
-          \cup {MkQ("", b[1], b[2], b[3], NoVer, FALSE, Any, FALSE, Any, <<"r">>) : b \in Bodies}
-QOps == {MkQ(op, b[1], b[2], b[3], v, FALSE, Any, FALSE, Any, r) : op \in Ops, b \in Bodies, v \in QVers, r \in {<<>>, <<"r">>}}
-        \cup {MkQ(op, b[1], b[2], b[3], v, TRUE, s, FALSE, Any, r) : op \in Ops, b \in Bodies, v \in QVers,
+          \cup {MkQ("", b[1], b[2], b[3], NoVer, FALSE, AnyPat, FALSE, AnyPat, <<"r">>) : b \in Bodies}
+QOps == {MkQ(op, b[1], b[2], b[3], v, FALSE, AnyPat, FALSE, AnyPat, r) : op \in Ops, b \in Bodies, v \in QVers, r \in {<<>>, <<"r">>}}
+        \cup {MkQ(op, b[1], b[2], b[3], v, TRUE, s, FALSE, AnyPat, r) : op \in Ops, b \in Bodies, v \in QVers,
                                                                   s \in {<<"1">>, <<"1", "*">>}, r \in {<<>>, <<"r">>}}
 Queries == {q \in QNames \cup QSlots \cup QOps : q.op = "~" => q.ver.rev = <<>>}
 Blockers == {<<"!">> \o a, <<"!", "!">> \o ab \o <<"/">> \o ba, <<"!", "*">>, a \o <<"/", "!", "*">>,
